@@ -346,15 +346,27 @@ impl<'a> ReadAdapter<'a> {
             0 => {
                 let buf = self.non_empty_reader_buffer_mut()?;
                 if buf.len() < N {
-                    return Err(DeserializationError::UnexpectedEOF);
+                    // The reader's buffer holds fewer than N bytes, but we haven't necessarily
+                    // reached eof yet, so fall back to filling `self.buf`
+                    self.buffer_at_least(N)?;
+                    // SAFETY: `buffer_at_least` guarantees at least N buffered bytes
+                    unsafe {
+                        core::ptr::copy_nonoverlapping(
+                            self.buffer().as_ptr(),
+                            output.as_mut_ptr(),
+                            N,
+                        );
+                    }
+                    self.pos += N;
+                } else {
+                    // SAFETY: This copy is guaranteed to be safe, as we have validated above
+                    // that `buf` has at least N bytes, and `output` is defined to be exactly
+                    // N bytes.
+                    unsafe {
+                        core::ptr::copy_nonoverlapping(buf.as_ptr(), output.as_mut_ptr(), N);
+                    }
+                    self.reader.get_mut().consume(N);
                 }
-                // SAFETY: This copy is guaranteed to be safe, as we have validated above
-                // that `buf` has at least N bytes, and `output` is defined to be exactly
-                // N bytes.
-                unsafe {
-                    core::ptr::copy_nonoverlapping(buf.as_ptr(), output.as_mut_ptr(), N);
-                }
-                self.reader.get_mut().consume(N);
             },
             n if n >= N => {
                 // SAFETY: This copy is guaranteed to be safe, as we have validated above
